@@ -2676,6 +2676,73 @@ def flatten_keyed_tables(func):
 
 # ----------------------------------------------------------------------------------------------------------- copy coalescing
 
+def join_term_lists(func):
+    """A table of strings kept as a table of PIECE LISTS and joined once at the end --
+
+        T = [["0.0"] for _ in range(n)]   ...   T[i].append(term)   ...   X = ["".join(pieces) for pieces in T]
+
+    -- is the table of strings `T = ["0.0"] * n` ... `T[i] += term` ... `X = T`: joining the pieces with "" in the order they were
+    appended is the concatenation.  Only when T is bound once (that comprehension: constant string pieces, a counting loop whose
+    variable the element does not use), every other use of T is `T[<index>].append(<one argument>)` as a statement or the one
+    joining comprehension, which stands at the top level of the function after every append.  (In place; returns func.)"""
+    binds, joins = {}, {}
+    for i, st in enumerate(func.body):
+        if not (isinstance(st, ast.Assign) and len(st.targets) == 1 and isinstance(st.targets[0], ast.Name) and isinstance(st.value, ast.ListComp)):
+            continue
+        c = st.value
+        if len(c.generators) != 1 or c.generators[0].ifs or c.generators[0].is_async:
+            continue
+        g = c.generators[0]
+        if isinstance(c.elt, ast.List) and c.elt.elts and all(isinstance(e, ast.Constant) and isinstance(e.value, str) for e in c.elt.elts) \
+                and isinstance(g.iter, ast.Call) and isinstance(g.iter.func, ast.Name) and g.iter.func.id == "range" and len(g.iter.args) == 1 and not g.iter.keywords \
+                and isinstance(g.target, ast.Name):
+            binds[st.targets[0].id] = i
+        elif isinstance(g.iter, ast.Name) and isinstance(g.target, ast.Name) and isinstance(c.elt, ast.Call) and isinstance(c.elt.func, ast.Attribute) \
+                and c.elt.func.attr == "join" and isinstance(c.elt.func.value, ast.Constant) and c.elt.func.value.value == "" and not c.elt.keywords \
+                and len(c.elt.args) == 1 and isinstance(c.elt.args[0], ast.Name) and c.elt.args[0].id == g.target.id:
+            joins.setdefault(g.iter.id, []).append(i)
+    for T, bi in binds.items():
+        if len(joins.get(T, ())) != 1 or joins[T][0] <= bi:
+            continue
+        ji = joins[T][0]
+        nstores = sum(1 for n in ast.walk(func) if isinstance(n, ast.Name) and n.id == T and isinstance(n.ctx, (ast.Store, ast.Del)))
+        if nstores != 1 or T in {a.arg for a in ast.walk(func.args) if isinstance(a, ast.arg)}:
+            continue
+        # every load of T: the join's iterable, or the base of `T[i].append(x)` in an expression statement before the join
+        appends = []
+        okuse = True
+        allowed = {id(func.body[ji].value.generators[0].iter)}
+        for k, top in enumerate(func.body):
+            for n in ast.walk(top):
+                if isinstance(n, ast.Expr) and isinstance(n.value, ast.Call) and isinstance(n.value.func, ast.Attribute) and n.value.func.attr == "append" \
+                        and isinstance(n.value.func.value, ast.Subscript) and isinstance(n.value.func.value.value, ast.Name) and n.value.func.value.value.id == T \
+                        and len(n.value.args) == 1 and not n.value.keywords and not isinstance(n.value.args[0], ast.Starred) and bi < k < ji:
+                    appends.append(n)
+                    allowed.add(id(n.value.func.value.value))
+        for n in ast.walk(func):
+            if isinstance(n, ast.Name) and n.id == T and isinstance(n.ctx, ast.Load) and id(n) not in allowed:
+                okuse = False
+        if not okuse:
+            continue
+        b = func.body[bi]
+        cell = ast.Constant(value="".join(e.value for e in b.value.elt.elts))
+        b.value = ast.BinOp(left=ast.List(elts=[cell], ctx=ast.Load()), op=ast.Mult(), right=b.value.generators[0].iter.args[0])
+        ast.fix_missing_locations(ast.copy_location(b.value, b))
+        ids = {id(n) for n in appends}
+
+        class Rw(ast.NodeTransformer):
+            def visit_Expr(self, n):
+                if id(n) not in ids:
+                    return n
+                sub = n.value.func.value
+                sub.ctx = ast.Store()
+                return ast.fix_missing_locations(ast.copy_location(ast.AugAssign(target=sub, op=ast.Add(), value=n.value.args[0]), n))
+        func.body[bi + 1:ji] = [Rw().visit(st) for st in func.body[bi + 1:ji]]
+        j = func.body[ji]
+        j.value = ast.copy_location(ast.Name(id=T, ctx=ast.Load()), j.value)
+    return func
+
+
 def coalesce_copies(func):
     """Copy coalescing at the top level of a function: `A = x` / `A, B = x, y` where the local x is not used afterwards and the name A
     does not occur before, is the same program with x spelled A from the start (the copy statement disappears).  This is what is
